@@ -1364,3 +1364,168 @@ func ruleIDMutexBeforeRepoMutex(r *Run) {
 	r.check(true, "datastore:scanned", fmt.Sprintf("%d functions acquire idMutex", len(takesID)), "", "-")
 	r.check(len(takesID) >= 10, "datastore:idMutex-users", fmt.Sprintf("%d", len(takesID)), "too few: rule needs review", "-")
 }
+
+// ---------------------------------------------------------------------------------------------
+// R20.43 / R11.29 — the node map of a DAG
+
+func init() {
+	reg := func(id, prop string) {
+		register(ruleDef{ID: id, Prop: prop, Tier: "quick", Floor: 10,
+			Title: "the node map of a DAG changes under both locks and is read under one: every store into or delete from dagT.nodes happens with the repo's lock and the DAG's lock write-held (as newVersion does), every lookup, range or len of it with the repo's or the DAG's lock held — in the function or at every call site; loaders of a not yet published repo are listed exceptions (readers take only one of the two locks, so a writer that holds only one of them races the readers that hold the other: `fatal error: concurrent map iteration and map write`)",
+			Fn:    ruleDagNodesLocks})
+	}
+	reg("R20.43", "C20")
+	reg("R11.29", "C11")
+}
+
+func ruleDagNodesLocks(r *Run) {
+	w := r.W
+	sites := callSitesOf(w)
+	lockBase := func(in ssa.Instruction) string {
+		c, ok := in.(*ssa.Call)
+		if !ok || len(c.Call.Args) == 0 {
+			return ""
+		}
+		fa, ok := c.Call.Args[0].(*ssa.FieldAddr)
+		if !ok {
+			return ""
+		}
+		if nm := namedOf(fa.X.Type()); nm != nil {
+			return nm.Obj().Name()
+		}
+		return ""
+	}
+	// which of the two locks are held at `at` (read or write)
+	type heldT struct{ repoR, repoW, dagR, dagW bool }
+	var heldAtSite func(f *ssa.Function, at ssa.Instruction, depth int, seen map[*ssa.Function]bool) heldT
+	heldAtSite = func(f *ssa.Function, at ssa.Instruction, depth int, seen map[*ssa.Function]bool) heldT {
+		var h heldT
+		done := map[string]bool{}
+		for _, b := range f.Blocks {
+			for _, in := range b.Instrs {
+				op, ok := asLockOp(in)
+				if !ok || !op.lock || done[op.key] {
+					continue
+				}
+				bt := lockBase(in)
+				if bt != "repoT" && bt != "dagT" {
+					continue
+				}
+				done[op.key] = true
+				held, write := heldKeyAt(f, at, op.key)
+				if !held {
+					continue
+				}
+				if bt == "repoT" {
+					h.repoR = true
+					h.repoW = h.repoW || write
+				} else {
+					h.dagR = true
+					h.dagW = h.dagW || write
+				}
+			}
+		}
+		if depth >= 3 || seen[f] {
+			return h
+		}
+		seen[f] = true
+		var cs []ssa.Instruction
+		if f.Parent() != nil {
+			for _, b := range f.Parent().Blocks {
+				for _, in := range b.Instrs {
+					if mc, ok := in.(*ssa.MakeClosure); ok && mc.Fn == ssa.Value(f) {
+						for _, ref := range *mc.Referrers() {
+							if c, ok := ref.(*ssa.Call); ok && c.Call.Value == ssa.Value(mc) {
+								cs = append(cs, c)
+							}
+						}
+					}
+				}
+			}
+		} else {
+			for _, c := range sites[f] {
+				if strings.HasSuffix(w.fposFile(c.Parent()), "_test.go") {
+					continue
+				}
+				if _, exc := exceptionTable["R20.43|"+fname(c.Parent())+":calls:"+f.Name()]; exc {
+					continue
+				}
+				cs = append(cs, c)
+			}
+		}
+		if len(cs) == 0 {
+			return h
+		}
+		all := heldT{true, true, true, true}
+		for _, c := range cs {
+			x := heldAtSite(c.Parent(), c, depth+1, seen)
+			all.repoR = all.repoR && x.repoR
+			all.repoW = all.repoW && x.repoW
+			all.dagR = all.dagR && x.dagR
+			all.dagW = all.dagW && x.dagW
+		}
+		h.repoR = h.repoR || all.repoR
+		h.repoW = h.repoW || all.repoW
+		h.dagR = h.dagR || all.dagR
+		h.dagW = h.dagW || all.dagW
+		return h
+	}
+	n := 0
+	for _, f := range w.RepoFuncs {
+		if relPkg(pkgPathOf(f)) != "datastore" || len(f.Blocks) == 0 || isTestFunc(w, f) {
+			continue
+		}
+		if f.Name() == "GobDecode" || f.Name() == "GobEncode" {
+			continue
+		}
+		k := 0
+		for _, b := range f.Blocks {
+			for _, in := range b.Instrs {
+				var m ssa.Value
+				what, write := "", false
+				switch x := in.(type) {
+				case *ssa.Lookup:
+					m, what = x.X, "looked up"
+				case *ssa.Range:
+					m, what = x.X, "ranged over"
+				case *ssa.MapUpdate:
+					m, what, write = x.Map, "stored into", true
+				case *ssa.Call:
+					if bi, ok := x.Call.Value.(*ssa.Builtin); ok {
+						if bi.Name() == "len" {
+							m, what = x.Call.Args[0], "measured"
+						} else if bi.Name() == "delete" {
+							m, what, write = x.Call.Args[0], "deleted from", true
+						}
+					}
+				}
+				if m == nil {
+					continue
+				}
+				mf, fa, ok := mapFieldOf(m)
+				if !ok || mf.typ != "dagT" || mf.field != "nodes" {
+					continue
+				}
+				if isFreshObject(fa.X, f) {
+					continue
+				}
+				k++
+				n++
+				construct := fmt.Sprintf("%s:dag.nodes#%d", fname(f), k)
+				if reason, exc := r.exceptionFor("R20.43", construct); exc {
+					r.check(true, construct, "exception: "+reason, "", w.pos(in.Pos()))
+					continue
+				}
+				h := heldAtSite(f, in, 0, map[*ssa.Function]bool{})
+				if write {
+					r.check(h.repoW && h.dagW, construct+":both-locks-write-held", "the repo's and the DAG's locks are write-held",
+						fmt.Sprintf("the DAG's node map is %s with repo lock write-held=%v, DAG lock write-held=%v: readers hold only one of the two (branch-versions iterates under the DAG's lock, repo info under the repo's), so the one not held lets them run at the same time — `fatal error: concurrent map iteration and map write` ends the process", what, h.repoW, h.dagW), w.pos(in.Pos()))
+				} else {
+					r.check(h.repoR || h.dagR, construct+":one-lock-held", "the repo's or the DAG's lock is held",
+						"the DAG's node map is "+what+" with neither the repo's nor the DAG's lock held: a new version or merge at the same time ends the process (`fatal error: concurrent map read and map write`)", w.pos(in.Pos()))
+				}
+			}
+		}
+	}
+	r.check(n >= 10, "datastore:dag-node-map-accesses", fmt.Sprintf("%d", n), "too few: rule needs review", "-")
+}
